@@ -938,6 +938,11 @@ func (s *c14State) checkHooks(note string) {
 					if !h.spec.PostGet || !strings.HasPrefix(w.Key, prefixPool[h.spec.Prefix]) || (h.spec.Cond != nil && !h.spec.Cond.eval(st.f)) {
 						continue
 					}
+					if st.deleted && h.spec.Cond != nil {
+						// a deleted record that a serialising backend hands back carries no data any more: whether a
+						// condition on its fields still holds depends on the backend (thorough tier, seed 61)
+						continue
+					}
 					if !(w.Inv > h.regRet && (h.cancelInv == 0 || w.Ret < h.cancelInv)) {
 						continue
 					}
